@@ -1619,22 +1619,58 @@ func suiteC07(s *Shard, n int) {
 	for i := 0; i < n; i++ {
 		// a history with selector traffic, read-backs and generator helpers
 		var ops []GenOp
-		ops = append(ops, GenOp{Kind: "call", Call: Call{Name: "reset", VB: ivg.DefaultViewBox, Pal: r.PremulPalette()}})
+		pal := r.PremulPalette()
+		nExplicit := 64
+		if r.Chance(25) {
+			// a short palette whose colours all have channels in {00,40,80,c0,ff}, some of them translucent:
+			// which encoded palette format holds them is the encoder's business
+			nExplicit = 1 + r.Intn(5)
+			lv := []uint8{0, 0x40, 0x80, 0xc0, 0xff}
+			for k := range pal {
+				pal[k] = color.RGBA{0, 0, 0, 0xff}
+				if k < nExplicit {
+					a := lv[1+r.Intn(4)]
+					if r.Bool() {
+						a = 0xff
+					}
+					ch := func() uint8 {
+						for {
+							if v := lv[r.Intn(5)]; v <= a {
+								return v
+							}
+						}
+					}
+					pal[k] = color.RGBA{ch(), ch(), ch(), a}
+				}
+			}
+		}
+		ops = append(ops, GenOp{Kind: "call", Call: Call{Name: "reset", VB: ivg.DefaultViewBox, Pal: pal}})
 		for p := 1 + r.Intn(3); p > 0; p-- {
 			for k := r.Intn(6); k > 0; k-- {
 				c := r.Styling(ProgOpts{})
 				ops = append(ops, GenOp{Kind: "call", Call: c})
+			}
+			if r.Chance(30) {
+				// paint with one of the explicit palette entries
+				ops = append(ops, GenOp{Kind: "call", Call: Call{Name: "creg", Col: ivg.PaletteIndexColor(uint8(r.Intn(nExplicit)))}})
 			}
 			if r.Chance(70) {
 				ops = append(ops, r.GradHelper())
 			}
 			ops = append(ops, GenOp{Kind: "call", Call: Call{Name: "start", Adj: uint8(r.Intn(3)), F: fl(float32(r.Intn(60)-30), float32(r.Intn(60)-30))}})
 			for k := 1 + r.Intn(4); k > 0; k-- {
-				c := r.DrawCall(ProgOpts{}, drawVerbs[r.Intn(len(drawVerbs))])
-				for j := range c.F {
-					c.F[j] = float32(r.Intn(128) - 64) // exactly representable: both pipelines agree bit for bit
+				verb := drawVerbs[r.Intn(len(drawVerbs))]
+				nRun := r.runLen(ProgOpts{MaxRun: 70}) // runs of one verb: the encoder chunks them by repeat count
+				if verb == "Y" || verb == "y" {
+					nRun = 1
 				}
-				ops = append(ops, GenOp{Kind: "call", Call: c})
+				for ; nRun > 0; nRun-- {
+					c := r.DrawCall(ProgOpts{}, verb)
+					for j := range c.F {
+						c.F[j] = float32(r.Intn(128) - 64) // exactly representable: both pipelines agree bit for bit
+					}
+					ops = append(ops, GenOp{Kind: "call", Call: c})
+				}
 			}
 			ops = append(ops, GenOp{Kind: "call", Call: Call{Name: "Z"}})
 		}
